@@ -37,7 +37,13 @@ def _labels(prop, tier, seed, replay=None):
     return run_labels.run(prop, tier, seed, replay)
 
 
+def _tf(prop, tier, seed, replay=None):
+    from . import run_transform
+    return run_transform.run(prop, tier, seed, replay)
+
+
 CHECKS = {
+    'C12': _tf, 'C05': _tf, 'C13': _tf, 'C14': _tf, 'C15': _tf, 'C04': _tf,
     'C20': _labels,
     'C19': _nav,
     'C16': _nav,
